@@ -78,6 +78,7 @@ def cases(tier, seed):
         for b in B + A:
             progs.append((b.format(x='a', y='b'), 2))
         progs.append(('a.norm()', 1)); progs.append(('a.normalized()', 1)); progs.append(('a.sqrt()', 1))
+        progs.append(('a.norm() + 0', 1)); progs.append(('a.normalized() * 1', 1))       # same, on mixed-grade operands (see below)
         # depth 2
         d2 = []
         for u1 in U:
@@ -109,6 +110,12 @@ def cases(tier, seed):
                 keys = [list(rng.choice(pats_)) for _ in range(nargs)]
                 if src in ('a.norm()', 'a.normalized()'):
                     keys = [[k for k in range(2 ** d) if bin(k).count('1') == 1]]       # a vector: normsq is a scalar
+                if src in ('a.norm() + 0', 'a.normalized() * 1'):
+                    # x*~x is NOT a pure scalar: scalar + vector + pseudoscalar (its norm is the sqrt of a Study number)
+                    keys = [[0, 1, 2 ** d - 1]] if j == 0 else [[0, 2, 1]]
+                    modes = ['plain']
+                    out.append(dict(kind='program', cfg=cfg, src=src, nargs=nargs, keys=keys, modes=modes))
+                    continue
                 if src == 'a.sqrt()':
                     keys = [[0, 2 ** d - 1]]
                 if d >= 3 and any(t in src for t in ('inv()', '** -', ' / ', '.div(')):
